@@ -140,6 +140,7 @@ class Ctx:
         self.subs = Counter()
         self.exhaustive = {}
         self.failures = []     # list of dict(sub, case, signature, message)
+        self.found = set()     # signatures of violations found in this run (excluded from the continued search)
         self.known = {f['signature'] for f in load_known(pid)}
         self.notes = []
         self._cur = None
@@ -187,38 +188,47 @@ class Ctx:
                 raise HarnessError(f'{sub}: {type(e).__name__}: {e}\n{traceback.format_exc()}') from e
             raise Violation(f'raises:{type(e).__name__}@{where}', repr(e)[:300]) from e
 
-    def run_given(self, sub, strategy, prop, n):
-        """drive prop with hypothesis; returns True if no (unknown) violation"""
+    def run_given(self, sub, strategy, prop, n, max_rounds=8):
+        """drive prop with hypothesis; returns True if no (unknown) violation.
+        Collect-then-shrink: after a failure is shrunk its signature is excluded by construction and the search
+        is run again, so one shallow defect cannot hide the others (up to max_rounds distinct signatures)."""
         from hypothesis import given, seed, settings, HealthCheck, Phase
-        holder = {}
         ctx = self
+        ok = True
+        for round_ in range(max_rounds):
+            holder = {}
 
-        @seed(self.derive(sub))
-        @settings(max_examples=n, database=None, deadline=None, derandomize=False,
-                  report_multiple_bugs=False, suppress_health_check=list(HealthCheck),
-                  phases=[Phase.explicit, Phase.generate, Phase.shrink], print_blob=False)
-        @given(strategy)
-        def test(case):
+            @seed(self.derive(sub))
+            @settings(max_examples=n, database=None, deadline=None, derandomize=False,
+                      report_multiple_bugs=False, suppress_health_check=list(HealthCheck),
+                      phases=[Phase.explicit, Phase.generate, Phase.shrink], print_blob=False)
+            @given(strategy)
+            def test(case):
+                try:
+                    ctx._call(sub, prop, case)
+                except Violation as v:
+                    if v.signature in ctx.known:
+                        ctx.excluded[v.signature] += 1
+                        return
+                    if v.signature in ctx.found:
+                        return
+                    holder['fail'] = (case, v)
+                    raise
+
             try:
-                ctx._call(sub, prop, case)
-            except Violation as v:
-                if v.signature in ctx.known:
-                    ctx.excluded[v.signature] += 1
-                    return
-                holder['fail'] = (case, v)
+                test()
+            except Violation:
+                case, v = holder['fail']
+                self.failures.append({'sub': sub, 'case': case, 'signature': v.signature, 'message': v.message})
+                self.found.add(v.signature)
+                ok = False
+                continue
+            except HarnessError:
                 raise
-
-        try:
-            test()
-        except Violation:
-            case, v = holder['fail']
-            self.failures.append({'sub': sub, 'case': case, 'signature': v.signature, 'message': v.message})
-            return False
-        except HarnessError:
-            raise
-        except Exception as e:  # hypothesis errors (Flaky, Unsatisfiable, ...)
-            raise HarnessError(f'{sub}: {type(e).__name__}: {e}') from e
-        return True
+            except Exception as e:  # hypothesis errors (Flaky, Unsatisfiable, ...)
+                raise HarnessError(f'{sub}: {type(e).__name__}: {e}') from e
+            break
+        return ok
 
     def run_enum(self, sub, cases, prop, exhaustive_label=None):
         """plain enumeration; sharded by index"""
@@ -232,9 +242,13 @@ class Ctx:
                 if v.signature in self.known:
                     self.excluded[v.signature] += 1
                     continue
-                self.failures.append({'sub': sub, 'case': case, 'signature': v.signature, 'message': v.message})
                 ok = False
-                break
+                if v.signature in self.found:
+                    continue
+                self.found.add(v.signature)
+                self.failures.append({'sub': sub, 'case': case, 'signature': v.signature, 'message': v.message})
+                if len(self.found) > 40:
+                    break
         if exhaustive_label and ok:
             self.exhaustive[exhaustive_label] = True
         return ok
